@@ -370,12 +370,13 @@ Example C01_dyn_example :
   = Some (RDForeignName (B "totalItems")).
 Proof. split; vm_compute; reflexivity. Qed.
 
-(* where the decoder model has no answer for a probe (left out of the comparison, on both sides): strings that are no
-   instant / no duration in an instant / duration position (time.Parse and xsd.Unmarshal on malformed text are not
-   modelled) - nothing else (an instant in an item position is read by the wider asIRI model since builder b33) *)
+(* where the decoder model has no answer for a probe (left out of the comparison, on both sides): nowhere.  A string
+   that is no duration in a duration position is read by the model of xsd.Unmarshal on all byte strings
+   (Model/XsdRead.v), a string that is no instant in an instant position by the model of time.Time.UnmarshalText on all
+   byte strings (Model/JsonDec.v read_rfc3339) - both since builder b52, both compared with the real functions by
+   Cases_C04_xsd / Cases_C04_time; an instant in an item position is read by the wider asIRI model since builder b33 *)
 Example C01_dyn_abstentions :
-  abstentions jr_tables dyn_rec
-  = [(B "JSONGetTime", [1; 2; 11]); (B "JSONGetDuration", [1; 2; 10])]%nat.
+  abstentions jr_tables dyn_rec = [].
 Proof. vm_compute. reflexivity. Qed.
 
 (* ---- leaf-struct repairs of the pinned tree (found by the leaf-struct probes of the correspondence) ---- *)
